@@ -3,12 +3,13 @@
 CONSTANTS
   N = 3
   NI = 2
+  NK = 1
   MaxClock = 7
   Retention = 2
   T = 2
   MaxCas = 8
   MaxFaults = 1
-  LiveStates = {"ACTIVE", "LEAVING"}
+  LiveStates = {"ACTIVE", "LEAVING", "PENDING"}
   WatchNodes = {1, 2, 3}
   HoldNodes = {}
   AllowRestart = TRUE
@@ -18,6 +19,7 @@ CONSTANTS
   GateNodes = {}
   InboxCap = 1
   VersionTest = TRUE
+  KeyTest = TRUE
   MaxDel = 3
   ObsoleteTimeout = 2
   ConsumeNet = FALSE
